@@ -81,6 +81,16 @@ func registerIntrinsics(p *Program) {
 		x, y := a[0].(Iface), a[1].(Iface)
 		return e.deepEq(x, y, map[[2]*Obj]bool{}), true
 	})
+	h("vInSet", func(e *Exec, _ *frame, _ *ssa.Function, a []Value) (Value, bool) {
+		b := a[0].(*T)
+		set := e.cstr(a[1])
+		var alts []*T
+		for i := 0; i < len(set); i++ {
+			alts = append(alts, sym.Eq(b, sym.BVC(8, uint64(set[i]))))
+		}
+		return sym.Or(alts...), true
+	})
+	h("vGetwd", func(e *Exec, _ *frame, _ *ssa.Function, a []Value) (Value, bool) { return Str{S: "/cwd/w"}, true })
 	h("vIsConcrete", func(e *Exec, _ *frame, _ *ssa.Function, a []Value) (Value, bool) {
 		t, ok := a[0].(*T)
 		return sym.BoolC(ok && t.IsConst()), true
